@@ -23,10 +23,6 @@ def negate(p):
         return ('is_some', p[2][0])
     if k == 'call' and re.search(r'Option::<T>::is_some$', p[1]):
         return ('is_none', p[2][0])
-    if k == 'call' and len(p) > 3 and re.search(r'cmp::PartialEq(<.*>)?::(eq|ne)$', p[3]) and re.search(r'::(eq|ne)$', p[1]):
-        # !(a == b) through the trait method is the other method of the same impl
-        flip = lambda t: re.sub(r'::(eq|ne)$', lambda m: '::ne' if m.group(1) == 'eq' else '::eq', t)
-        return ('call', flip(p[1]), p[2], flip(p[3])) + tuple(flip(x) if isinstance(x, str) else x for x in p[4:])
     return ('un', 'Not', p)
 
 
@@ -69,6 +65,20 @@ def none_form(p):
     return ('is_none', e) if n else p
 
 
+def option_test_form(fn, p):
+    """`if let Some(v) = x.filter(|v| c(v))` is `if let Some(v) = x { if c(v) {..} }`: a test for Some of a combinator chain
+    over one tested Option and one further condition is that condition (on the payload of the tested Option)"""
+    if p[0] != 'is_some' or strip(p[1])[0] != 'call':
+        return p
+    from mirlib import opt_sem, conj_simplify
+    conds, _v = opt_sem(fn, p[1])
+    conds = conj_simplify(conds)
+    rest = [c for c in conds if not (c[0] == 'is_some' and strip(c[1])[0] in ('var', 'arg', 'field'))]
+    if len(rest) == 1 and len(conds) >= 1 and rest[0][0] != 'is_some':
+        return canon_pred(rest[0])
+    return p
+
+
 def norm_pred(cond, label):
     """predicate that is true exactly when the edge `label` of a switch on `cond` is taken"""
     if cond[0] == 'discr':
@@ -108,7 +118,7 @@ class Guard:
         self.kind = kind          # 'reject' | 'defer'
         self.kinds = kinds
         self.span = span
-        self.pred = none_form(norm_pred(cond, label))
+        self.pred = option_test_form(fn, none_form(norm_pred(cond, label)))
         self.others = others      # [(label, tgt)] of the sibling edges
 
     def where(self):
